@@ -49,12 +49,12 @@ TOLERANCES = {
 EXHAUSTIVE = {"quick": False, "thorough": False}
 EXHAUSTIVE_PART = "none (sampled)"
 FLOORS = {
-    "quick": {"refusal.negative-height-of-an-intermediate-block": 4, "law.height": 1100, "law.contiguity": 1100, "law.grid": 1100, "law.boundary": 5500, "law.target-mass": 5500, "law.uniform-solid-mass": 4500,
+    "quick": {"workload.components-sharing-one-vector": 30, "refusal.negative-height-of-an-intermediate-block": 4, "law.height": 1100, "law.contiguity": 1100, "law.grid": 1100, "law.boundary": 5500, "law.target-mass": 5500, "law.uniform-solid-mass": 4500,
               "law.stacked": 10000, "law.component-height": 15000, "law.factors": 1100, "law.linkage": 1100, "law.inverse": 120, "law.temperature": 450,
               "hook:AxialExpansionChanger.axiallyExpandAssembly": 1100, "construction.expandColdDimsToHot": 70,
               "law.input-to-hot-mass": 500, "law.input-to-hot-mass.tight": 500, "law.input-to-hot-mass.loose": 6, "law.fluid-density-untouched": 1100,
               "law.inverse-fluid": 1700, "law.target-designation": 5200, "law.unsorted-grid": 85, "thermal.field-at-zero-celsius": 30},
-    "thorough": {"refusal.negative-height-of-an-intermediate-block": 60, "law.height": 13000, "law.contiguity": 13000, "law.grid": 13000, "law.boundary": 65000, "law.target-mass": 65000, "law.uniform-solid-mass": 55000,
+    "thorough": {"workload.components-sharing-one-vector": 350, "refusal.negative-height-of-an-intermediate-block": 60, "law.height": 13000, "law.contiguity": 13000, "law.grid": 13000, "law.boundary": 65000, "law.target-mass": 65000, "law.uniform-solid-mass": 55000,
                  "law.stacked": 130000, "law.component-height": 190000, "law.factors": 13000, "law.linkage": 13000, "law.inverse": 1500, "law.temperature": 5500,
                  "hook:AxialExpansionChanger.axiallyExpandAssembly": 13000, "construction.expandColdDimsToHot": 800,
                  "law.input-to-hot-mass": 6500, "law.input-to-hot-mass.tight": 6500, "law.input-to-hot-mass.loose": 100, "law.fluid-density-untouched": 13000,
@@ -992,6 +992,21 @@ def do_direct(spec, rec):
             rec.crash("build-direct", e, w)
             continue
         exp_t = {k: b["expected_target"] for k, b in enumerate(asp["blocks"]) if b["kind"] != "dummy"} if asp["special"] != "unrelated-geometry" else None
+        if i % 5 == 2:
+            # one composition vector (one dict object) held by the same-named solids of two blocks, as a user script that assigns
+            # p.numberDensities directly leaves it: each component's density is divided by its own growth exactly once
+            by_name = {}
+            for b_ in list(a)[:-1]:
+                for c_ in b_:
+                    if is_solid(c_) and c_.p.numberDensities:
+                        by_name.setdefault((c_.name, c_.material.name), []).append(c_)
+            twins = [v for v in by_name.values() if len(v) >= 2]
+            if twins:
+                grp = rng.choice(twins)
+                for c_ in grp[1:]:
+                    c_.p.numberDensities = grp[0].p.numberDensities
+                rec.hit("workload.components-sharing-one-vector")
+                w["shared_vector"] = [grp[0].name, len(grp)]
         drv = Driver(rec, a, w, "direct", layout_sig(asp), expected_targets=exp_t)
         run_program(rec, rng, drv)
 
